@@ -7,8 +7,15 @@ func init() {
 
 func runC21(c *Ctx) {
 	c.R.Rule("U-effects", "for every History.Append(height, do, undo) in dpos/state: every shared-state location the do-closure writes (struct field assigned, map field inserted into / deleted from, following same-package callees) is restored by the undo-closure (assign by assign; insert by delete or assign; delete by insert or assign)")
+	c.R.Rule("U-value", "what an undo-closure writes back: a scalar field is restored from a constant, from a variable captured before the change (never one the change itself assigns after writing the field), or by adjusting the field the opposite way by the same amount as the change; never from the current value of another state field; a change that may leave a field untouched is not paired with a rollback that always overwrites it with a constant or adjustment; a map entry is removed/re-inserted under a key the change used")
+	c.R.Rule("U-direct", "no function on the block-processing paths (reached from ProcessBlock outside History.Append closures) writes a field or map of the serialized key frame directly: every such write is part of a history change, so it can be rolled back")
 	c.R.Rule("U-order", "the histories committed while processing a block (State.History, Arbiters.History, ...) are all rolled back by Arbiters.RollbackTo, in reverse commit order where their changes overlap")
 	c.uValues("U-value", "dpos/state", 1)
+	c.uDirect("U-direct", "dpos/state", [][2]string{{"State", "ProcessBlock"}, {"Arbiters", "ProcessBlock"}}, map[string]bool{"StateKeyFrame": true, "RewardData": true}, map[string]string{
+		"(*dpos/state.State).countArbitratorsInactivityV0|StateKeyFrame.PreBlockArbiters":          "observed, not decided: the legacy (pre-V1) inactivity counting rebuilds PreBlockArbiters directly on every block and no rollback restores it; a rolled-back state then starts the next block with the arbiter set of the rolled-back block. No failing history was demonstrated (the path is only active between PublicDPOSHeight and the V1 inactivity rules), so it is neither reported nor claimed correct",
+		"(*dpos/state.Arbiters).getSortedProducersWithRandom|StateKeyFrame.LastRandomCandidateHeight": "observed, not decided: the random candidate's height is assigned outside any history change (source comment: 'todo need to use History?'); after a rollback across a re-selection the remembered height is the rolled-back one. No failing history was demonstrated",
+		"(*dpos/state.Arbiters).getSortedProducersWithRandom|StateKeyFrame.LastRandomCandidateOwner":  "observed, not decided: same as LastRandomCandidateHeight",
+	})
 	c.uOrder("U-order", "dpos/state", c.fn("dpos/state", "Arbiters", "ProcessBlock"), c.fn("dpos/state", "Arbiters", "RollbackTo"), map[string]string{}, nil)
 	c.uEffects("U-effects", "dpos/state", 85, map[string]string{
 		"(*dpos/state.State).processTransactions|Producer.expiredNFTVotes:assign":      "lazy initialisation of a nil map before the insert (`if m == nil { m = make }`); the rollback deletes the inserted key and an empty map is observationally the nil map",
@@ -18,7 +25,12 @@ func runC21(c *Ctx) {
 
 func runC22(c *Ctx) {
 	c.uValues("U-value", "cr/state", 1)
+	c.uDirect("U-direct", "cr/state", [][2]string{{"Committee", "ProcessBlock"}}, map[string]bool{"StateKeyFrame": true, "KeyFrame": true, "ProposalKeyFrame": true}, map[string]string{
+		"(*cr/state.Committee).processCurrentCandidates|StateKeyFrame.HistoryCandidates": "lazy creation of the empty per-session map before the history change fills it; after a rollback the session key stays with an empty map, which every reader treats like an absent one (the entries themselves are inserted and removed by the history change)",
+	})
 	c.R.Rule("U-effects", "for every History.Append(height, do, undo) in cr/state: every shared-state location the do-closure writes is restored by the undo-closure (assign by assign; insert by delete or assign; delete by insert or assign)")
+	c.R.Rule("U-value", "what an undo-closure writes back (see C21): constants, values captured before the change, or the inverse adjustment; never a value derived from another state field at rollback time; map entries are undone under the keys the change used")
+	c.R.Rule("U-direct", "no function reached from Committee.ProcessBlock outside History.Append closures writes a field or map of the serialized key frames directly")
 	c.R.Rule("U-order", "the committee's histories are rolled back by Committee.RollbackTo; two histories whose recorded changes write a common location are rolled back in the reverse of the order in which Committee.ProcessBlock commits them")
 	c.uEffects("U-effects", "cr/state", 60, map[string]string{})
 	c.uOrder("U-order", "cr/state", c.fn("cr/state", "Committee", "ProcessBlock"), c.fn("cr/state", "Committee", "RollbackTo"), map[string]string{"rollbackTo": "State.History"}, map[string]string{
